@@ -190,6 +190,7 @@ class Tree:
         """overrides: relpath -> source text used instead of the file on disk (in-memory variants for controls / self-test)."""
         self.root = root or REPO
         self.overrides = overrides or {}
+        self.canonical = os.environ.get("VT_NO_CANON", "") == ""
         self.pkgdir = os.path.join(self.root, PKG)
         self.modules: Dict[str, Module] = {}
         self._load()
@@ -220,6 +221,9 @@ class Tree:
                     tree = ast.parse(src, filename=rel)
                 except (SyntaxError, UnicodeDecodeError, ValueError) as e:
                     raise AnalysisError(f"cannot parse {rel}: {e}")
+                if self.canonical:
+                    from .canon import canonicalise
+                    tree = canonicalise(rel, tree)
                 set_parents(tree)
                 self.modules[name] = Module(name, path, rel, src, tree, hashlib.sha256(raw).hexdigest())
 
